@@ -34,6 +34,7 @@ func (s *c06Stream) GetType() publictypes.StreamType      { return publictypes.S
 type c06Quota struct {
 	mu      sync.Mutex
 	free    int
+	errNext bool // the next check fails with a transient error (backend unreachable)
 	granted []string
 	h       *c06H
 }
@@ -45,6 +46,10 @@ func (q *c06Quota) GetParentID() string              { return "" }
 func (q *c06Quota) Allowed(s publictypes.APIStreamI) (bool, error) {
 	q.mu.Lock()
 	defer q.mu.Unlock()
+	if q.errNext {
+		q.errNext = false
+		return false, fmt.Errorf("transient quota error")
+	}
 	if q.free <= 0 {
 		return false, nil
 	}
@@ -140,7 +145,9 @@ func VerifC06Steps() {
 	n := 0
 	for st := 0; st < S; st++ {
 		verifDrain() // goroutines released by the previous step run now (not between a tick and a shutdown, see below)
-		switch verifChoose(fmt.Sprintf("ev%d", st), 4) {
+		switch verifChoose(fmt.Sprintf("ev%d", st), 4+int(verifParam("quotaErrors", 0))) {
+		case 4: // the next quota check fails with a transient error (a refusal for that pass, nothing more)
+			q.errNext = true
 		case 0: // a request arrives
 			verifAssume(n < int(verifParam("maxReqs", 3)))
 			n++
